@@ -53,7 +53,7 @@ CHECKS = {
 }
 
 # properties whose proof modules are merged into lean/ and whose check passes on the clean tree
-READY = ["C01", "C02", "C03", "C04", "C06", "C07", "C08", "C09", "C10", "C11", "C12", "C13", "C14", "C15", "C16", "C18", "C19", "C20"]
+READY = ["C01", "C02", "C03", "C04", "C06", "C07", "C08", "C09", "C10", "C11", "C12", "C13", "C14", "C15", "C16", "C17", "C18", "C19", "C20"]
 
 CHECKS.update({
     "C04": dict(
@@ -201,6 +201,24 @@ CHECKS.update({
              "truncated tables are measured by the oracle, not proved. n<=1 is excluded (C17).",
         technique="Lean 4 proof (algebra/order over a field with library functions as parameters) + correspondence of all builders and the factory + analytic oracle",
         ref="DESIGN.md 7/C16"),
+    "C17": dict(
+        text="PARTIAL. Theorems, for all sizes and inputs, on the index arithmetic that decides whether arrays are respected: "
+             "(1) GENERATED buffer lengths of main() (translator G4): every bucket window bucket*spacing+grid lies inside the "
+             "padded profile buffer = wake-impedance length, for any bucket count, spacing, padding and rounding "
+             "(pad_fits_multi/single; old_length_too_short = the pre-fix formula fails); (2) GENERATED Fokker-Planck "
+             "constructor incl. the clamp of the stencil switch row: every table row holds source indices < n and every "
+             "statement writes an existing row, for EVERY position of the zero-energy bin (any grid shift); (3) kick maps: "
+             "updateSM yields a full row with indices < n for displacements of any size, sign, inf or NaN, apply reads "
+             "only cells < n; (4) Impedance::operator+= keeps the left length and reads the right table only where it "
+             "exists; (5) the text reader returns only complete records made of file tokens; upper_power_of_two >= argument. "
+             "Search: ASan+UBSan+float-cast-overflow+_GLIBCXX_ASSERTIONS builds of the API harness (bitwise against the "
+             "model) and of the real program over the configuration domain and the three kinds of input file; a run must "
+             "complete or stop with a message; buffer length and bucket numbers of completed runs vs. the generated arithmetic.",
+        note="Memory safety of the compiled program as a whole (allocation, HDF5/FFTW/boost calls, code outside the modelled "
+             "index arithmetic) is searched with sanitizers, not proved. Out-of-domain options (InterpolationPoints not in 1..4, "
+             "derivation not in 3..4) are not judged.",
+        technique="Lean 4 proof (index arithmetic on translated sizes/FP constructor and hand models) + translator + bitwise correspondence + sanitizer-guided search of harness and program",
+        ref="DESIGN.md 7/C17"),
 })
 
 PENDING = {
